@@ -19,7 +19,12 @@ import (
 //	                   wrappers) gives that field explicitly, as a state literal or as the result of a
 //	                   module function every return of which is such a literal (a constructor helper,
 //	                   bounded depth) — a holder literal without the field leaves the maps nil;
-//	new(T)             of the state struct or of a holder leaves the maps nil.
+//	new(T)             of the state struct or of a holder leaves the maps nil;
+//	completion         a map that the allocation (literal, holder literal, new) leaves nil is accepted when the
+//	                   object is kept in a fresh local and, on every path from the allocation to a use that
+//	                   hands the object out (return, alias, capture, foreign call), the field is assigned a
+//	                   made map — directly, or in a package function that receives (the address of) the
+//	                   object or of its state and makes the map on every path (c27Constr.completed).
 //
 // minLits only guards against vacuity (a rule that finds no creation site decides nothing).
 func checkMapInit(c *core.Ctx, pkg, structName string, minLits int) {
@@ -129,6 +134,39 @@ func checkMapInit(c *core.Ctx, pkg, structName string, minLits int) {
 		}
 		return false, exprStr(e) + " is neither a " + short(structName) + " literal nor the result of a constructor helper"
 	}
+	// a map that the allocation leaves nil may be made before the object is handed out: the allocation,
+	// the field stores and the initialising helper are one construction (see c27Constr.completed)
+	constr := c27NewConstr(p, pkg)
+	making := c27Making{
+		isMade: isMade,
+		whole: func(f *core.FuncInfo, lhs, rhs ast.Expr) bool {
+			if !isState(f.Info().TypeOf(lhs)) {
+				return false
+			}
+			ok, _ := isBuilt(f, rhs, 2)
+			return ok
+		},
+	}
+	// are all written maps of the state inside the object allocated by x made before it is handed out?
+	completedAll := func(f *core.FuncInfo, x ast.Expr) (bool, string) {
+		n := 0
+		for i := 0; i < st.NumFields(); i++ {
+			fld := st.Field(i)
+			if _, isMap := fld.Type().Underlying().(*types.Map); !isMap {
+				continue
+			}
+			mf := p.FieldName(fld)
+			if _, w := written[mf]; !w {
+				continue
+			}
+			n++
+			if ok, why := constr.completed(f, x, mf, making); !ok {
+				return false, why
+			}
+		}
+		return n > 0, "no map of the state is assigned into"
+	}
+	nCompleted := 0
 	for _, f := range funcs {
 		f := f
 		f.InspectOwn(func(n ast.Node) bool {
@@ -148,9 +186,13 @@ func checkMapInit(c *core.Ctx, pkg, structName string, minLits int) {
 							continue
 						}
 						v := elemOf(f, x, st, i)
-						c.Check(v != nil && isMade(f, v), short(f.Name)+"|"+short(mf)+" initialised", "T16a SiblingAgreement", x.Pos(),
-							"the literal makes the map that "+where+" assigns into",
-							fmt.Sprintf("this constructor leaves %s nil although %s assigns into it: the first such assignment panics (assignment to entry in nil map)", short(mf), where))
+						made, later := v != nil && isMade(f, v), ""
+						if !made {
+							made, later = constr.completed(f, x, mf, making)
+						}
+						c.Check(made, short(f.Name)+"|"+short(mf)+" initialised", "T16a SiblingAgreement", x.Pos(),
+							"the map that "+where+" assigns into is made by the literal, or before the state is handed out",
+							fmt.Sprintf("this constructor leaves %s nil although %s assigns into it: the first such assignment panics (assignment to entry in nil map); %s", short(mf), where, later))
 					}
 					return true
 				}
@@ -160,7 +202,12 @@ func checkMapInit(c *core.Ctx, pkg, structName string, minLits int) {
 					v := elemOf(f, x, hs, i)
 					key := short(f.Name) + "|cache state of " + types.TypeString(t, func(*types.Package) string { return "" }) + " initialised"
 					if v == nil {
-						c.Fail(key, "T16a SiblingAgreement", x.Pos(), "this literal does not give the embedded "+short(structName)+": its maps stay nil and the first open through this producer panics (assignment to entry in nil map)")
+						if ok, why := completedAll(f, x); ok {
+							nCompleted++
+							c.Pass(key, "T16a SiblingAgreement", "the literal leaves the "+short(structName)+" empty, and every map that is assigned into is made before the producer is handed out")
+						} else {
+							c.Fail(key, "T16a SiblingAgreement", x.Pos(), "this literal does not give the embedded "+short(structName)+": its maps stay nil and the first open through this producer panics (assignment to entry in nil map); "+why)
+						}
 						return true
 					}
 					if ok, why := isBuilt(f, v, 2); ok {
@@ -172,13 +219,20 @@ func checkMapInit(c *core.Ctx, pkg, structName string, minLits int) {
 			case *ast.CallExpr:
 				if calleeName(f, x) == "builtin.new" && len(x.Args) == 1 {
 					if t := f.Info().TypeOf(x.Args[0]); isState(t) || stateField(t) >= 0 {
-						c.Fail(short(f.Name)+"|cache state made by new()", "T16a SiblingAgreement", x.Pos(), "new() yields a "+short(structName)+" with nil maps: the first open panics (assignment to entry in nil map)")
+						key := short(f.Name) + "|cache state made by new()"
+						if ok, why := completedAll(f, x); ok {
+							nCompleted++
+							c.Pass(key, "T16a SiblingAgreement", "new() yields nil maps, and every map that is assigned into is made before the object is handed out")
+						} else {
+							c.Fail(key, "T16a SiblingAgreement", x.Pos(), "new() yields a "+short(structName)+" with nil maps: the first open panics (assignment to entry in nil map); "+why)
+						}
 					}
 				}
 			}
 			return true
 		})
 	}
-	c.ExpectAtLeast("composite literals of "+short(structName), nLits, minLits)
+	// a creation site whose maps were checked: a state literal, or an allocation completed by field stores
+	c.ExpectAtLeast("creation sites of "+short(structName)+" whose maps are checked", nLits+nCompleted, minLits)
 	c.ExpectAtLeast("literals of producers holding a "+short(structName), nHolders, 1)
 }
